@@ -36,8 +36,19 @@ Failing values are reduced to the minimal failing value (characters deleted or
 replaced by ``a``) of the same failure class; signatures name dialect variant,
 position, mode and that minimal value.
 
-Mutations caught (each in a private copy, VF_REPO=/tmp/wt-strings/..):
-  filled in below after the runs.
+Findings on the unchanged tree (reported; stable signatures):
+  * ``text(":x")`` with a literal_binds value containing ``\\:`` -- visit_textclause
+    un-escapes ``\\:`` in the *rendered* value too, so ``'\\:'`` becomes ``':'``
+    (proposed_fixes/c05_text_literal_backslash_colon.diff)
+  * a literal_binds value containing ``%(name)s`` is rewritten by the positional
+    post-processing (``'?'`` on qmark, ``'%s'`` on format, KeyError on numeric_dollar)
+
+Mutations caught (each in a private copy, VF_REPO=/tmp/wt-strings/<m>):
+  * String.literal_processor: ``'`` doubling dropped -> exec raises / rows differ on every value with ``'``
+  * MySQL render_literal_value: backslash doubling removed -> ``lex mysql+mysqldb: string value '\\'``
+  * PostgreSQL render_literal_value: backslash doubling applied unconditionally -> ``lex postgresql+psycopg2: string value '\\'``
+  * String.literal_processor: ``%`` doubling for every paramstyle -> ``exec sqlite: string value '%'`` (qmark / named)
+  * pymssql preparer ``_double_percents = False`` removed -> ``lex mssql+pymssql: string value '%'``
 """
 import datetime as dt
 import decimal
